@@ -866,6 +866,33 @@ def _norm_tree(n):
     return n
 
 
+_ABSTRACTED_NAME = re.compile(r"^([a-jl-uw-z]|el\d+|map\d+|new_el\d+|self|Self|_)$")
+
+
+def _alpha(node):
+    """Copy of a function node in which every locally bound name (let / match / closure / parameter patterns) that the
+    normal form does not abstract anyway is replaced by `%v<i>`, i = order of first binding: siblings may name their
+    locals differently."""
+    import copy
+    node = copy.deepcopy(node)
+    order = {}
+    for x in walk(node):
+        if kind(x) == "pid" and isinstance(x.get("n"), str) and not _ABSTRACTED_NAME.match(x["n"]) and x["n"] not in order:
+            order[x["n"]] = "%%v%d" % len(order)
+    if not order:
+        return node
+    pat = re.compile(r"(?<![\w.:])(%s)(?![\w(!:])" % "|".join(re.escape(k) for k in sorted(order, key=len, reverse=True)))
+    for x in walk(node):
+        k = kind(x)
+        if k == "pid" and x.get("n") in order:
+            x["n"] = order[x["n"]]
+        elif k == "path" and x.get("p") in order:
+            x["p"] = order[x["p"]]
+        elif k == "macro" and isinstance(x.get("t"), str):
+            x["t"] = pat.sub(lambda m: order[m.group(1)], x["t"])
+    return node
+
+
 def _prefix_tree_methods(trees):
     t = trees["eqlog-runtime/src/prefix_tree.rs"]
     if "error" in t:
@@ -939,13 +966,56 @@ def rule_set(trees):
 
 def rule_nav(trees):
     """S-NAV: every search in the ordered map compares the *search key* with the node's key and descends left on Less and right
-    on Greater: insert, remove, split, get and get_mut are sibling implementations of one navigation and must agree."""
+    on Greater: insert, remove, split, get and get_mut are sibling implementations of one navigation and must agree.
+    Both idioms are read: `match key.cmp(&node_key) { Less => .., Greater => .. }` and `if key < node_key {..} else if key >
+    node_key {..}` (operands in either order)."""
     res = RuleResult("S-NAV")
     t = trees["eqlog-runtime/src/wbtree/map.rs"]
     if "error" in t:
         raise AnchorError("map.rs does not parse")
     want = {"insert_simple", "remove_existing_node", "split", "get", "get_mut"}
     seen = set()
+
+    def is_search(txt, params):
+        return txt.lstrip("&*") in params
+
+    def is_node_key(txt, params):
+        return ("key" in txt or "mk" in txt) and txt.lstrip("&*") not in params
+
+    def check_side(fn, side, label, body, where):
+        other = "right" if side == "left" else "left"
+        # what is descended into: arguments of recursive calls and right-hand sides of cursor assignments
+        desc = []
+        for x in walk(body):
+            if kind(x) == "call" and kind(x["f"]) == "path" and x["f"]["p"].split("::")[-1] == fn["n"] and x["a"]:
+                desc.append(expr_str(x["a"][0]))
+            if kind(x) == "assign" and expr_str(x["lhs"]) == "current":
+                desc.append(expr_str(x["rhs"]))
+        # locals bound from a child field inside the arm: `let old_left = data_node.left.take()`
+        alias = {}
+        for x in walk(body):
+            if kind(x) == "let" and kind(x["p"]) == "pid" and x["e"] is not None:
+                txt = expr_str(x["e"])
+                if ".left" in txt and ".right" not in txt:
+                    alias[x["p"]["n"]] = "left"
+                elif ".right" in txt and ".left" not in txt:
+                    alias[x["p"]["n"]] = "right"
+        if not desc:
+            res.bad("S-NAV:%s:no-descent" % fn["n"], where, "%s: the %s arm does not descend" % (fn["n"], label))
+            return
+        for dexp in desc:
+            sides = set()
+            if ".left" in dexp or dexp in ("left", "&left"):
+                sides.add("left")
+            if ".right" in dexp or dexp in ("right", "&right"):
+                sides.add("right")
+            if dexp in alias:
+                sides.add(alias[dexp])
+            if sides == {side}:
+                res.ok()
+            else:
+                res.bad("S-NAV:%s:wrong-child" % fn["n"], where, "%s: on %s the search descends into `%s` (expected the %s child, not the %s child)" % (fn["n"], label, dexp, side, other))
+
     for qn, fn, imp in find_fns(t["items"]):
         if fn["n"] not in want or imp is None or not any(x in nospace(imp["ty"]) for x in ("Node<", "WBTreeMap<")):
             continue
@@ -956,47 +1026,41 @@ def rule_nav(trees):
             arg = expr_str(mt["e"]["a"][0]) if mt["e"]["a"] else ""
             where = "eqlog-runtime/src/wbtree/map.rs:%s %s" % (mt["ln"], qn)
             seen.add(fn["n"])
-            if recv.lstrip("&*") in params and ("key" in arg or "mk" in arg) and arg.lstrip("&*") not in params:
+            flipped = False
+            if is_search(recv, params) and is_node_key(arg, params):
+                res.ok()
+            elif is_search(arg, params) and is_node_key(recv, params):
+                flipped = True      # node_key.cmp(search key): Less means the search key is greater
                 res.ok()
             else:
-                res.bad("S-NAV:%s:comparison-operands" % fn["n"], where, "%s compares `%s.cmp(%s)`; expected <search key>.cmp(<node key>)" % (fn["n"], recv, arg))
+                res.bad("S-NAV:%s:comparison-operands" % fn["n"], where, "%s compares `%s.cmp(%s)`; expected the search key and the node's key" % (fn["n"], recv, arg))
             for arm in mt["arms"]:
                 pat = expr_str({"k": "path", "p": arm["p"].get("p", "")}) if kind(arm["p"]) == "ppath" else ""
-                side = {"Ordering::Less": "left", "Ordering::Greater": "right"}.get(pat)
+                side = {"Ordering::Less": "left", "Ordering::Greater": "right", "Less": "left", "Greater": "right"}.get(pat)
                 if side is None:
                     continue
-                other = "right" if side == "left" else "left"
-                # what is descended into: arguments of recursive calls and right-hand sides of cursor assignments
-                desc = []
-                for x in walk(arm["b"]):
-                    if kind(x) == "call" and kind(x["f"]) == "path" and x["f"]["p"].split("::")[-1] == fn["n"] and x["a"]:
-                        desc.append(expr_str(x["a"][0]))
-                    if kind(x) == "assign" and expr_str(x["lhs"]) == "current":
-                        desc.append(expr_str(x["rhs"]))
-                # locals bound from a child field inside the arm: `let old_left = data_node.left.take()`
-                alias = {}
-                for x in walk(arm["b"]):
-                    if kind(x) == "let" and kind(x["p"]) == "pid" and x["e"] is not None:
-                        txt = expr_str(x["e"])
-                        if ".left" in txt and ".right" not in txt:
-                            alias[x["p"]["n"]] = "left"
-                        elif ".right" in txt and ".left" not in txt:
-                            alias[x["p"]["n"]] = "right"
-                if not desc:
-                    res.bad("S-NAV:%s:no-descent" % fn["n"], where, "%s: the %s arm does not descend" % (fn["n"], pat))
-                    continue
-                for dexp in desc:
-                    sides = set()
-                    if ".left" in dexp or dexp in ("left", "&left"):
-                        sides.add("left")
-                    if ".right" in dexp or dexp in ("right", "&right"):
-                        sides.add("right")
-                    if dexp in alias:
-                        sides.add(alias[dexp])
-                    if sides == {side}:
-                        res.ok()
-                    else:
-                        res.bad("S-NAV:%s:wrong-child" % fn["n"], where, "%s: on %s the search descends into `%s` (expected the %s child, not the %s child)" % (fn["n"], pat, dexp, side, other))
+                if flipped:
+                    side = "right" if side == "left" else "left"
+                check_side(fn, side, pat, arm["b"], where)
+        # if-form
+        for x in walk(fn["b"]):
+            if kind(x) != "if" or kind(x["c"]) != "bin" or x["c"]["op"] not in ("<", ">", "<=", ">="):
+                continue
+            lhs, rhs = expr_str(x["c"]["lhs"]), expr_str(x["c"]["rhs"])
+            if is_search(lhs, params) and is_node_key(rhs, params):
+                search_left = True
+            elif is_search(rhs, params) and is_node_key(lhs, params):
+                search_left = False
+            else:
+                continue
+            where = "eqlog-runtime/src/wbtree/map.rs:%s %s" % (x["ln"], qn)
+            seen.add(fn["n"])
+            op = x["c"]["op"]
+            if op in ("<=", ">="):
+                res.bad("S-NAV:%s:non-strict-comparison" % fn["n"], where, "%s decides the descent by `%s %s %s`: the equal case is not separated" % (fn["n"], lhs, op, rhs))
+                continue
+            less = (op == "<") == search_left       # the then-branch is taken when the search key is smaller
+            check_side(fn, "left" if less else "right", "`%s %s %s`" % (lhs, op, rhs), x["t"], where)
     missing = want - seen
     if missing:
         raise AnchorError("navigation functions without a key comparison: %s" % sorted(missing))
@@ -1192,9 +1256,9 @@ def rule_sib(trees):
         if missing:
             res.bad("S-SIB:%s:missing-arity" % name, "eqlog-runtime/src/prefix_tree.rs", "method %s is missing for arities %s" % (name, missing))
         ref_n = 3 if 3 in by_n else arities[0]
-        ref = json.dumps(_norm_tree({"params": by_n[ref_n]["params"], "ret": by_n[ref_n]["ret"], "b": by_n[ref_n]["b"], "vis": by_n[ref_n]["vis"]}), sort_keys=True)
+        ref = json.dumps(_norm_tree(_alpha({"params": by_n[ref_n]["params"], "ret": by_n[ref_n]["ret"], "b": by_n[ref_n]["b"], "vis": by_n[ref_n]["vis"]})), sort_keys=True)
         for n in sorted(arities):
-            got = json.dumps(_norm_tree({"params": by_n[n]["params"], "ret": by_n[n]["ret"], "b": by_n[n]["b"], "vis": by_n[n]["vis"]}), sort_keys=True)
+            got = json.dumps(_norm_tree(_alpha({"params": by_n[n]["params"], "ret": by_n[n]["ret"], "b": by_n[n]["b"], "vis": by_n[n]["vis"]})), sort_keys=True)
             if got == ref:
                 res.ok()
             else:
